@@ -227,10 +227,19 @@ pub fn damage(args: &[String]) -> i32 {
         if w.len() < 2 {
             continue;
         }
-        let off: usize = w[0].parse().unwrap();
-        let bytes = unhex(w[1]);
         let mut img = image.clone();
-        img[off..off + bytes.len()].copy_from_slice(&bytes);
+        // pairs "<abs_offset> <hexbytes>", applied left to right; the image grows if a patch ends beyond it
+        for pair in w.chunks(2) {
+            if pair.len() < 2 {
+                break;
+            }
+            let off: usize = pair[0].parse().unwrap();
+            let bytes = unhex(pair[1]);
+            if img.len() < off + bytes.len() {
+                img.resize(off + bytes.len(), 0);
+            }
+            img[off..off + bytes.len()].copy_from_slice(&bytes);
+        }
         std::fs::write(scratch, &img).unwrap();
         let line = match open_dump_parts(scratch, &opts) {
             Ok((d, c)) => format!("{} ok {:016x} {}", i, crate::run::fnv64(d.as_bytes()), c),
